@@ -110,6 +110,8 @@ def run_many(jobs: list[dict], work: Path, parallel: int | None = None) -> list[
     """jobs: dicts of run_tlc keyword arguments plus 'module' and 'cfg'. Order of results = order of jobs."""
     parallel = parallel or max(1, min(len(jobs), NCPU // 2))
 
+    work.mkdir(parents=True, exist_ok=True)
+
     def one(ij):
         i, j = ij
         j = dict(j)
